@@ -16,7 +16,8 @@
       The law is PROVED for the specified resolver `FS.resolve` (`spec_resolver_lawful`,
       `resolve_idempotent`) and is an explicit hypothesis for any other resolver; for CPython 3.12's
       real algorithm (`FS.py312Resolve`) it is proved only on the branch where no symlink loop is met
-      (`py312_lawful_partial`, see the end of the file) and sampled by the harness on every run.
+      (`py312_lawful`, by a divergence argument for the give-up branch) — both instances are compared with the
+      real `Path.resolve()` by the harness on every run.
     * `noncanonical_root_refuses_all`: a root that is not canonical refuses everything (safe).
     * negation witness for the code BEFORE the fix: `prefix_escape_witness`.
   Trusted / outside: the real `Path.resolve()` and the OS; races between the check and the open.
@@ -75,7 +76,7 @@ end Spec
 open Spec
 
 /-- resolver law: a path the resolver maps to itself is canonical -/
-def FixpointCanonical (fs : FS) (R : Resolver) : Prop := ∀ p, R ⟨1, p⟩ = some p → Canon fs p
+def FixpointCanonical (fs : FS) (R : Resolver) : Prop := ∀ p, R ⟨1, p⟩ = .ok p → Canon fs p
 
 /-! ## the specified resolver returns canonical paths and is idempotent -/
 
@@ -191,27 +192,51 @@ theorem walk_fixed (fs : FS) : ∀ (todo acc : Segs) (n : Nat),
       simp [walk, hs.1, hs.2, hl, this]
 
 /-- **the specified resolver returns canonical paths** -/
-theorem resolve_canonical (fs : FS) (c : PPath) (p : Segs) (h : fs.resolve c = some p) : Canon fs p :=
-  walk_canon fs _ _ _ _ (canon_nil fs) h
+theorem resolve_ok_iff (fs : FS) (c : PPath) (p : Segs) :
+    fs.resolve c = .ok p ↔
+      (if c.isAbsolute then c.segs else fs.cwd ++ c.segs).any hasNul = false ∧
+      walk fs fs.fuel [] (if c.isAbsolute then c.segs else fs.cwd ++ c.segs) = some p ∧ p.any hasNul = false := by
+  unfold FS.resolve
+  generalize (if c.isAbsolute then c.segs else fs.cwd ++ c.segs) = start
+  by_cases h1 : start.any hasNul = true
+  · simp [h1]
+  · cases hw : walk fs fs.fuel [] start with
+    | none => simp [h1, hw]
+    | some q =>
+      by_cases h2 : q.any hasNul = true
+      · simp only [h1, hw, h2]
+        constructor
+        · intro h; simp at h
+        · rintro ⟨_, h, h'⟩; simp at h; subst h; simp [h2] at h'
+      · simp only [h1, hw, h2]
+        constructor
+        · intro h; simp at h; subst h; exact ⟨by simp [h1], rfl, by simp [h2]⟩
+        · rintro ⟨_, h, _⟩; simp at h; subst h; simp
+
+theorem resolve_canonical (fs : FS) (c : PPath) (p : Segs) (h : fs.resolve c = .ok p) : Canon fs p :=
+  walk_canon fs _ _ _ _ (canon_nil fs) ((resolve_ok_iff fs c p).mp h).2.1
 
 /-- **the specified resolver is idempotent** -/
-theorem resolve_idempotent (fs : FS) (c : PPath) (p : Segs) (h : fs.resolve c = some p) :
-    fs.resolve ⟨1, p⟩ = some p := by
+theorem resolve_idempotent (fs : FS) (c : PPath) (p : Segs) (h : fs.resolve c = .ok p) :
+    fs.resolve ⟨1, p⟩ = .ok p := by
   have hc := resolve_canonical fs c p h
-  unfold FS.resolve at h ⊢
+  obtain ⟨_, h, hnul⟩ := (resolve_ok_iff fs c p).mp h
   have hlen : p.length ≤ fs.fuel := by
     by_cases hne : (if c.isAbsolute = true then c.segs else fs.cwd ++ c.segs) = []
     · rw [hne] at h; cases hf : fs.fuel <;> simp [hf, walk] at h <;> subst h <;> simp
     · have := walk_len fs _ _ _ _ h hne
       simpa using this
   have := walk_fixed fs p [] fs.fuel (by simpa using hc) hlen
-  simpa [PPath.isAbsolute] using this
+  refine (resolve_ok_iff fs ⟨1, p⟩ p).mpr ?_
+  simpa [PPath.isAbsolute, hnul] using this
 
 /-- a canonical path is a fixpoint of the specified resolver (given fuel for its length) -/
-theorem resolve_of_canonical (fs : FS) (p : Segs) (hc : Canon fs p) (hf : p.length ≤ fs.fuel) :
-    fs.resolve ⟨1, p⟩ = some p := by
+theorem resolve_of_canonical (fs : FS) (p : Segs) (hc : Canon fs p) (hf : p.length ≤ fs.fuel)
+    (hnul : p.any hasNul = false) :
+    fs.resolve ⟨1, p⟩ = .ok p := by
   have := walk_fixed fs p [] fs.fuel (by simpa using hc) hf
-  simpa [FS.resolve, PPath.isAbsolute] using this
+  refine (resolve_ok_iff fs ⟨1, p⟩ p).mpr ?_
+  simpa [PPath.isAbsolute, hnul] using this
 
 /-- the specified resolver satisfies the resolver law -/
 theorem spec_resolver_lawful (fs : FS) : FixpointCanonical fs fs.resolve :=
@@ -236,33 +261,40 @@ theorem candidate_error {root spec src e} (h : candidate root spec src = .error 
 theorem resolveLoadItem_shape (cfg : Cfg) (R : Resolver) (spec : Str) (src : Option PPath) (r : PPath)
     (hr : cfg.root = some r) :
     resolveLoadItem cfg R spec src = ([], .error .loadError)
-    ∨ (∃ c, resolveLoadItem cfg R spec src = ([.resolve c], .error .runtimeError))
-    ∨ (∃ c p, resolveLoadItem cfg R spec src = ([.resolve c, .resolve ⟨1, p⟩], .error .runtimeError))
-    ∨ (∃ c p, resolveLoadItem cfg R spec src = ([.resolve c, .resolve ⟨1, p⟩], .error .loadError))
+    ∨ (∃ c e, resolveLoadItem cfg R spec src = ([.resolve c], .error e))
+    ∨ (∃ c p e, resolveLoadItem cfg R spec src = ([.resolve c, .resolve ⟨1, p⟩], .error e))
     ∨ (∃ c p, resolveLoadItem cfg R spec src = ([.resolve c, .resolve ⟨1, p⟩, .check p false], .error .loadError)
         ∧ relativeTo ⟨1, p⟩ r = false)
     ∨ (∃ c p, resolveLoadItem cfg R spec src = ([.resolve c, .resolve ⟨1, p⟩, .check p true], .ok p)
         ∧ relativeTo ⟨1, p⟩ r = true ∧ candidate cfg.root (stripProto cfg.proto spec) src = .ok c
-        ∧ R c = some p ∧ R ⟨1, p⟩ = some p) := by
+        ∧ R c = .ok p ∧ R ⟨1, p⟩ = .ok p) := by
   cases hc : candidate cfg.root (stripProto cfg.proto spec) src with
   | error e => have := candidate_error hc; subst this; left; simp [resolveLoadItem, hc]
   | ok c =>
     have hc' := hc
     rw [hr] at hc'
     cases h1 : R c with
-    | none => right; left; exact ⟨c, by simp [resolveLoadItem, hc, h1]⟩
-    | some p =>
+    | error e =>
+      right; left
+      cases e
+      case valueError => exact ⟨c, .loadError, by simp [resolveLoadItem, hc, h1]⟩
+      case loadError => exact ⟨c, .loadError, by simp [resolveLoadItem, hc, h1]⟩
+      case inputError => exact ⟨c, .inputError, by simp [resolveLoadItem, hc, h1]⟩
+      case runtimeError => exact ⟨c, .runtimeError, by simp [resolveLoadItem, hc, h1]⟩
+      case fileNotFound => exact ⟨c, .fileNotFound, by simp [resolveLoadItem, hc, h1]⟩
+      case typeError => exact ⟨c, .typeError, by simp [resolveLoadItem, hc, h1]⟩
+    | ok p =>
       cases h2 : R ⟨1, p⟩ with
-      | none => right; right; left; exact ⟨c, p, by simp [resolveLoadItem, hc, h1, h2]⟩
-      | some p2 =>
+      | error e => right; right; left; exact ⟨c, p, e, by simp [resolveLoadItem, hc, h1, h2]⟩
+      | ok p2 =>
         by_cases hne : p2 = p
         · subst hne
           by_cases hrel : relativeTo ⟨1, p2⟩ r = true
-          · right; right; right; right; right
+          · right; right; right; right
             exact ⟨c, p2, by simp [resolveLoadItem, hc, hc', h1, h2, hr, hrel], hrel, rfl, h1, h2⟩
-          · right; right; right; right; left
+          · right; right; right; left
             exact ⟨c, p2, by simp [resolveLoadItem, hc, hc', h1, h2, hr, hrel], by simpa using hrel⟩
-        · right; right; right; left; exact ⟨c, p, by simp [resolveLoadItem, hc, h1, h2, hne]⟩
+        · right; right; left; exact ⟨c, p, .loadError, by simp [resolveLoadItem, hc, h1, h2, hne]⟩
 
 /-- **contained**: with a root folder configured, every accepted specification resolves to a path that has
     the root as segment prefix (and the root is then anchored at `/`), whatever the specification, the
@@ -270,8 +302,8 @@ theorem resolveLoadItem_shape (cfg : Cfg) (R : Resolver) (spec : Str) (src : Opt
 theorem contained (cfg : Cfg) (R : Resolver) (spec : Str) (src : Option PPath) (r : PPath)
     (hr : cfg.root = some r) (tr : List Ev) (p : Segs)
     (h : resolveLoadItem cfg R spec src = (tr, .ok p)) :
-    r.anchor = 1 ∧ Inside r.segs p ∧ R ⟨1, p⟩ = some p := by
-  rcases resolveLoadItem_shape cfg R spec src r hr with h' | ⟨c, h'⟩ | ⟨c, q, h'⟩ | ⟨c, q, h'⟩ | ⟨c, q, h', _⟩ |
+    r.anchor = 1 ∧ Inside r.segs p ∧ R ⟨1, p⟩ = .ok p := by
+  rcases resolveLoadItem_shape cfg R spec src r hr with h' | ⟨c, e, h'⟩ | ⟨c, q, e, h'⟩ | ⟨c, q, h', _⟩ |
       ⟨c, q, h', hrel, _, _, hfix⟩
   all_goals (rw [h'] at h; simp at h)
   obtain ⟨_, rfl⟩ := h
@@ -304,7 +336,7 @@ theorem noncanonical_root_refuses_all (fs : FS) (cfg : Cfg) (R : Resolver) (hR :
 theorem inside_accepted (cfg : Cfg) (R : Resolver) (spec : Str) (src : Option PPath) (r : PPath)
     (hr : cfg.root = some r) (hanchor : r.anchor = 1) (c : PPath) (p : Segs)
     (hc : candidate cfg.root (stripProto cfg.proto spec) src = .ok c)
-    (h1 : R c = some p) (h2 : R ⟨1, p⟩ = some p) (hin : Inside r.segs p) :
+    (h1 : R c = .ok p) (h2 : R ⟨1, p⟩ = .ok p) (hin : Inside r.segs p) :
     resolveLoadItem cfg R spec src = ([.resolve c, .resolve ⟨1, p⟩, .check p true], .ok p) := by
   have hrel : relativeTo ⟨1, p⟩ r = true := (relativeTo_iff p r).mpr ⟨hanchor, hin⟩
   rw [hr] at hc
@@ -314,7 +346,7 @@ theorem inside_accepted (cfg : Cfg) (R : Resolver) (spec : Str) (src : Option PP
 theorem outside_refused (cfg : Cfg) (R : Resolver) (spec : Str) (src : Option PPath) (r : PPath)
     (hr : cfg.root = some r) (c : PPath) (p : Segs)
     (hc : candidate cfg.root (stripProto cfg.proto spec) src = .ok c)
-    (h1 : R c = some p) (h2 : R ⟨1, p⟩ = some p) (hout : ¬ Inside r.segs p) :
+    (h1 : R c = .ok p) (h2 : R ⟨1, p⟩ = .ok p) (hout : ¬ Inside r.segs p) :
     resolveLoadItem cfg R spec src = ([.resolve c, .resolve ⟨1, p⟩, .check p false], .error .loadError) := by
   have hrel : ¬ relativeTo ⟨1, p⟩ r = true := fun h => hout ((relativeTo_iff p r).mp h).2
   rw [hr] at hc
@@ -395,12 +427,11 @@ theorem step_monitored (cfg : Cfg) (w : World) (r : PPath) (hr : cfg.root = some
     (∀ e, (step cfg w it stack visited).2 = .error e → monitor (step cfg w it stack visited).1 ok false = true) ∧
     (∀ x, (step cfg w it stack visited).2 = .ok x → ∀ rest, (∀ ok', monitor rest ok' false = true) →
         monitor ((step cfg w it stack visited).1 ++ rest) ok false = true) := by
-  rcases resolveLoadItem_shape cfg w.resolve it.spec it.src r hr with h | ⟨c, h⟩ | ⟨c, q, h⟩ | ⟨c, q, h⟩ |
+  rcases resolveLoadItem_shape cfg w.resolve it.spec it.src r hr with h | ⟨c, e, h⟩ | ⟨c, q, e, h⟩ |
       ⟨c, q, h, _⟩ | ⟨c, q, h, _⟩
   · simp [step, loaderResolve, h, monitor]
-  · simp [step, loaderResolve, h, monitor]
-  · simp [step, loaderResolve, h, monitor]
-  · simp [step, loaderResolve, h, monitor]
+  · cases e <;> simp [step, loaderResolve, h, monitor]
+  · cases e <;> simp [step, loaderResolve, h, monitor]
   · simp [step, loaderResolve, h, monitor]
   · cases hk : w.kind q <;> by_cases hv : q ∈ visited <;> cases ht : cfg.trackerRaises <;>
       simp [step, loaderResolve, h, hk, hv, ht, monitor] <;> (try (intro rest hrest; exact hrest _))
@@ -459,13 +490,12 @@ theorem run_forall (cfg : Cfg) (w : World) (G : Ev → Prop)
 theorem step_checks (cfg : Cfg) (w : World) (r : PPath) (hr : cfg.root = some r)
     (it : Item) (stack : List Item) (visited : List Segs) :
     ∀ e ∈ (step cfg w it stack visited).1, ∀ p, e = Ev.check p true →
-      r.anchor = 1 ∧ Inside r.segs p ∧ w.resolve ⟨1, p⟩ = some p := by
-  rcases resolveLoadItem_shape cfg w.resolve it.spec it.src r hr with h | ⟨c, h⟩ | ⟨c, q, h⟩ | ⟨c, q, h⟩ |
+      r.anchor = 1 ∧ Inside r.segs p ∧ w.resolve ⟨1, p⟩ = .ok p := by
+  rcases resolveLoadItem_shape cfg w.resolve it.spec it.src r hr with h | ⟨c, e, h⟩ | ⟨c, q, e, h⟩ |
       ⟨c, q, h, _⟩ | ⟨c, q, h, hrel, _, _, hfix⟩
   · simp [step, loaderResolve, h]
-  · simp [step, loaderResolve, h]
-  · simp [step, loaderResolve, h]
-  · simp [step, loaderResolve, h]
+  · cases e <;> simp [step, loaderResolve, h]
+  · cases e <;> simp [step, loaderResolve, h]
   · simp [step, loaderResolve, h]
   · have hq := (relativeTo_iff q r).mp hrel
     cases hk : w.kind q <;> by_cases hv : q ∈ visited <;> cases ht : cfg.trackerRaises <;>
@@ -490,13 +520,13 @@ theorem no_access_before_check (cfg : Cfg) (w : World) (r : PPath) (hr : cfg.roo
 theorem trace_inside (cfg : Cfg) (w : World) (r : PPath) (hr : cfg.root = some r)
     (n : Nat) (stack : List Item) (visited : List Segs) (e : Ev) (p : Segs)
     (he : e ∈ (run cfg w n stack visited).1) (hacc : isAccess e p) :
-    r.anchor = 1 ∧ Inside r.segs p ∧ w.resolve ⟨1, p⟩ = some p := by
+    r.anchor = 1 ∧ Inside r.segs p ∧ w.resolve ⟨1, p⟩ = .ok p := by
   obtain ⟨pre, post, hsplit⟩ := List.append_of_mem he
   have hchk := (no_access_before_check cfg w r hr n stack visited pre e post p hsplit hacc).1
   have hmem : Ev.check p true ∈ (run cfg w n stack visited).1 := by
     rw [hsplit]; exact List.mem_append_left _ hchk
   exact run_forall cfg w (fun e => ∀ p, e = Ev.check p true →
-      r.anchor = 1 ∧ Inside r.segs p ∧ w.resolve ⟨1, p⟩ = some p)
+      r.anchor = 1 ∧ Inside r.segs p ∧ w.resolve ⟨1, p⟩ = .ok p)
     (step_checks cfg w r hr) n stack visited _ hmem p rfl
 
 /-- on disk: under the resolver law, every accessed path is canonical (no symlink component, no dot segment),
@@ -513,7 +543,7 @@ theorem trace_inside_on_disk (fs : FS) (cfg : Cfg) (w : World) (hR : FixpointCan
 theorem loadFiles_trace_inside (cfg : Cfg) (w : World) (r : PPath) (hr : cfg.root = some r)
     (fuel : Nat) (roots : Option (List Str)) (e : Ev) (p : Segs)
     (he : e ∈ (loadFiles cfg w fuel roots).1) (hacc : isAccess e p) :
-    r.anchor = 1 ∧ Inside r.segs p ∧ w.resolve ⟨1, p⟩ = some p := by
+    r.anchor = 1 ∧ Inside r.segs p ∧ w.resolve ⟨1, p⟩ = .ok p := by
   unfold loadFiles at he
   cases roots with
   | none => simp [hr] at he; exact trace_inside cfg w r hr _ _ _ e p he hacc
@@ -534,11 +564,22 @@ theorem loadFiles_no_access_before_check (cfg : Cfg) (w : World) (r : PPath) (hr
 theorem outside_reported (cfg : Cfg) (w : World) (r : PPath) (hr : cfg.root = some r)
     (it : Item) (stack : List Item) (visited : List Segs) (c : PPath) (p : Segs)
     (hc : candidate cfg.root (stripProto cfg.proto it.spec) it.src = .ok c)
-    (h1 : w.resolve c = some p) (h2 : w.resolve ⟨1, p⟩ = some p) (hout : ¬ Inside r.segs p) :
+    (h1 : w.resolve c = .ok p) (h2 : w.resolve ⟨1, p⟩ = .ok p) (hout : ¬ Inside r.segs p) :
     step cfg w it stack visited =
       ([.resolve c, .resolve ⟨1, p⟩, .check p false, .report],
        .error (if cfg.trackerRaises then .inputError else .loadError)) := by
   have := outside_refused cfg w.resolve it.spec it.src r hr c p hc h1 h2 hout
+  simp [step, loaderResolve, this]
+
+/-- a specification the operating system rejects as a path (`resolve()` raises `ValueError`: an embedded NUL
+    character) is reported as a load error; nothing is stat'ed, listed or opened (fix 7b14439) -/
+theorem invalid_path_reported (cfg : Cfg) (w : World) (it : Item) (stack : List Item) (visited : List Segs)
+    (c : PPath) (hc : candidate cfg.root (stripProto cfg.proto it.spec) it.src = .ok c)
+    (h1 : w.resolve c = .error .valueError) :
+    step cfg w it stack visited =
+      ([.resolve c, .report], .error (if cfg.trackerRaises then .inputError else .loadError)) := by
+  have : resolveLoadItem cfg w.resolve it.spec it.src = ([.resolve c], .error .loadError) := by
+    simp [resolveLoadItem, hc, h1]
   simp [step, loaderResolve, this]
 
 /-- a root item that is not root-anchored denotes nothing and is reported without any file-system access -/
@@ -566,7 +607,7 @@ theorem unanchored_root_item_reported (cfg : Cfg) (w : World) (r : PPath) (hr : 
 theorem inside_loaded_normally (cfg : Cfg) (w : World) (r : PPath) (hr : cfg.root = some r)
     (hanchor : r.anchor = 1) (it : Item) (stack : List Item) (visited : List Segs) (c : PPath) (p : Segs)
     (hc : candidate cfg.root (stripProto cfg.proto it.spec) it.src = .ok c)
-    (h1 : w.resolve c = some p) (h2 : w.resolve ⟨1, p⟩ = some p) (hin : Inside r.segs p)
+    (h1 : w.resolve c = .ok p) (h2 : w.resolve ⟨1, p⟩ = .ok p) (hin : Inside r.segs p)
     (hnew : p ∉ visited) :
     (w.kind p = .dir → step cfg w it stack visited =
       ([.resolve c, .resolve ⟨1, p⟩, .check p true, .stat p, .listdir p],
@@ -582,7 +623,7 @@ theorem inside_loaded_normally_spec (fs : FS) (cfg : Cfg) (w : World) (hw : w.re
     (r : PPath) (hr : cfg.root = some r) (hanchor : r.anchor = 1)
     (it : Item) (stack : List Item) (visited : List Segs) (c : PPath) (p : Segs)
     (hc : candidate cfg.root (stripProto cfg.proto it.spec) it.src = .ok c)
-    (h1 : fs.resolve c = some p) (hin : Inside r.segs p) (hnew : p ∉ visited) (hk : w.kind p = .file) :
+    (h1 : fs.resolve c = .ok p) (hin : Inside r.segs p) (hnew : p ∉ visited) (hk : w.kind p = .file) :
     step cfg w it stack visited =
       ([.resolve c, .resolve ⟨1, p⟩, .check p true, .stat p, .stat p, .open p],
        .ok (pushAll (w.entries p) ⟨1, parent p⟩ stack, p :: visited)) :=
@@ -681,6 +722,12 @@ def exFS : FS :=
 def exRoot : PPath := ⟨1, ["r".toList]⟩
 def exCfg : Cfg := ⟨some exRoot, "file:".toList, false⟩
 
+/-- both resolver models raise `ValueError` for a NUL character in a segment that is reached -/
+example : exFS.py312Resolve ⟨1, ["r".toList, ['a', Char.ofNat 0, 'b']]⟩ = .error .valueError := by decide
+example : exFS.resolve ⟨1, ["r".toList, ['a', Char.ofNat 0, 'b']]⟩ = .error .valueError := by decide
+example : (resolveLoadItem exCfg exFS.py312Resolve ['/', 'a', Char.ofNat 0] none) =
+    ([.resolve ⟨1, ["r".toList, ['a', Char.ofNat 0]]⟩], .error .loadError) := by decide
+
 /-- accepted, inside (hypotheses of `contained`, `inside_accepted`, `inside_loaded_normally`):
     `FILE:\i/../s//a.csv` placed in `/r/s` is `/r/s/a.csv` -/
 example : resolveLoadItem exCfg exFS.resolve "FILE:\\i/../s//a.csv".toList none =
@@ -701,8 +748,8 @@ example : (resolveLoadItem exCfg exFS.resolve "file:/../o/secret.csv".toList non
 example : (resolveLoadItem exCfg exFS.resolve "//o/secret.csv".toList none).2 = .error .loadError := by decide
 example : (resolveLoadItem exCfg exFS.resolve "a.csv".toList none).2 = .error .loadError := by decide
 /-- `exRoot` is a canonical root; `/r/i` (a symlink) and `//r` are not (hypothesis of `noncanonical_root_refuses_all`) -/
-example : exFS.resolve exRoot = some exRoot.segs := by decide
-example : exFS.resolve ⟨1, ["r".toList, "i".toList]⟩ ≠ some ["r".toList, "i".toList] := by decide
+example : exFS.resolve exRoot = .ok exRoot.segs := by decide
+example : exFS.resolve ⟨1, ["r".toList, "i".toList]⟩ ≠ .ok ["r".toList, "i".toList] := by decide
 example : (resolveLoadItem ⟨some ⟨1, ["r".toList, "i".toList]⟩, "file:".toList, false⟩ exFS.resolve
     "/a.csv".toList none).2 = .error .loadError := by decide
 /-- a plain symlink loop is a `RuntimeError` for both resolvers (nothing is opened) -/
@@ -717,7 +764,7 @@ example : (resolveLoadItem exCfg exFS.py312Resolve "/k/x".toList none).2 = .erro
 theorem prefix_escape_witness :
     resolveLoadItemPreFix exCfg exFS.py312Resolve "/k/../l/secret.csv".toList none
       = .ok ["r".toList, "l".toList, "secret.csv".toList]
-    ∧ exFS.resolve ⟨1, ["r".toList, "l".toList, "secret.csv".toList]⟩ = some ["o".toList, "secret.csv".toList]
+    ∧ exFS.resolve ⟨1, ["r".toList, "l".toList, "secret.csv".toList]⟩ = .ok ["o".toList, "secret.csv".toList]
     ∧ ¬ Inside exRoot.segs ["o".toList, "secret.csv".toList] := by
   refine ⟨by decide, by decide, ?_⟩
   intro h
@@ -728,7 +775,7 @@ theorem prefix_escape_witness :
 /-- CPython 3.12's resolver does not return canonical paths … -/
 theorem py312_output_not_canonical :
     exFS.py312Resolve ⟨1, ["r".toList, "k".toList, "..".toList, "l".toList, "x".toList]⟩
-      = some ["r".toList, "l".toList, "x".toList]
+      = .ok ["r".toList, "l".toList, "x".toList]
     ∧ readlink exFS ["r".toList, "l".toList] ≠ none := by
   constructor <;> decide
 
@@ -739,7 +786,16 @@ theorem fixed_code_refuses_witness :
         .resolve ⟨1, ["r".toList, "l".toList, "secret.csv".toList]⟩], .error .loadError) := by
   decide
 
-/-! ## CPython 3.12's resolver: canonical whenever it does not give up -/
+/-! ## CPython 3.12's resolver satisfies the resolver law
+
+  Three facts about `joinReal` (the model of `posixpath._joinrealpath`), each by induction on its fuel:
+    * `joinReal_ok_canon`  — when it does not give up, the result is canonical (cache entries included);
+    * `joinReal_ok_sim`    — when it does not give up, the plain walk from the same state reaches the same
+                              resolved prefix (or runs out of fuel), cache hits included;
+    * `joinReal_loop_div`  — when it gives up at a symlink loop, the plain walk over the same input returns
+                              `none` for every fuel (it comes back to the same link with less fuel, forever).
+  A fixpoint of `py312Resolve` reached through the give-up branch would be a path on which `stat()` (= the plain
+  walk) succeeds although `joinReal` gave up on that very path: impossible by the third fact. -/
 
 /-- every finished entry of the realpath cache is canonical -/
 def SeenCanon (fs : FS) (seen : Seen) : Prop := ∀ k v, (k, some v) ∈ seen → Canon fs v
@@ -759,9 +815,17 @@ theorem seenLookup_mem {seen : Seen} {k : Segs} {v : Option Segs} (h : seenLooku
     subst hk; subst h
     exact hm
 
+theorem seenLookup_cons (k0 : Segs) (v0 : Option Segs) (seen : Seen) (k : Segs) :
+    seenLookup ((k0, v0) :: seen) k = if k0 = k then some v0 else seenLookup seen k := by
+  unfold seenLookup
+  by_cases h : k0 = k
+  · simp [List.find?, h]
+  · have hb : (k0 == k) = false := by simpa using h
+    simp [List.find?, hb, h]
+
 /-- when CPython's `_joinrealpath` does not give up, it returns a canonical path -/
 theorem joinReal_ok_canon (fs : FS) : ∀ (n : Nat) (acc todo : Segs) (seen : Seen) (q : Segs) (seen' : Seen),
-    Canon fs acc → SeenCanon fs seen → joinReal fs n acc todo seen = (q, true, seen') →
+    Canon fs acc → SeenCanon fs seen → joinReal fs n acc todo seen = (q, .ok, seen') →
     Canon fs q ∧ SeenCanon fs seen' := by
   intro n
   induction n with
@@ -781,43 +845,48 @@ theorem joinReal_ok_canon (fs : FS) : ∀ (n : Nat) (acc todo : Segs) (seen : Se
       · by_cases h2 : isDotDot s = true
         · simp [h1, h2] at h
           exact ih _ _ _ _ _ (canon_prefix hc (List.dropLast_prefix acc)) hs h
-        · simp only [h1, h2] at h
-          cases hl : readlink fs (acc ++ [s]) with
-          | none =>
-            simp [hl] at h
-            exact ih _ _ _ _ _ (canon_snoc hc (by simpa using h1) (by simpa using h2) hl) hs h
-          | some t =>
-            simp [hl] at h
-            cases hk : seenLookup seen (acc ++ [s]) with
+        · by_cases h3 : hasNul s = true
+          · simp [h1, h2, h3] at h
+          · simp only [h1, h2, h3] at h
+            cases hl : readlink fs (acc ++ [s]) with
             | none =>
-              simp [hk] at h
-              have hs1 : SeenCanon fs ((acc ++ [s], none) :: seen) := by
-                intro k v hm
-                simp at hm
-                exact hs k v hm
-              cases hj : joinReal fs n (if t.isAbsolute = true then [] else acc) t.segs ((acc ++ [s], none) :: seen) with
-              | mk p rest2 =>
-                obtain ⟨b, seen2⟩ := rest2
-                cases b with
-                | false => simp [hj] at h
-                | true =>
-                  simp [hj] at h
-                  have hstart : Canon fs (if t.isAbsolute = true then [] else acc) := by
-                    by_cases ha : t.isAbsolute = true <;> simp [ha, hc, canon_nil]
-                  obtain ⟨hp, hs2⟩ := ih _ _ _ _ _ hstart hs1 hj
-                  have hs3 : SeenCanon fs ((acc ++ [s], some p) :: seen2) := by
-                    intro k v hm
-                    simp at hm
-                    rcases hm with ⟨_, rfl⟩ | hm
-                    · exact hp
-                    · exact hs2 k v hm
-                  exact ih _ _ _ _ _ hp hs3 h
-            | some o =>
-              cases o with
-              | none => simp [hk] at h
-              | some cached =>
+              simp [hl] at h
+              exact ih _ _ _ _ _ (canon_snoc hc (by simpa using h1) (by simpa using h2) hl) hs h
+            | some t =>
+              simp [hl] at h
+              cases hk : seenLookup seen (acc ++ [s]) with
+              | none =>
                 simp [hk] at h
-                exact ih _ _ _ _ _ (hs _ _ (seenLookup_mem hk)) hs h
+                have hs1 : SeenCanon fs ((acc ++ [s], none) :: seen) := by
+                  intro k v hm
+                  simp at hm
+                  exact hs k v hm
+                cases hj : joinReal fs n (if t.isAbsolute = true then [] else acc) t.segs
+                    ((acc ++ [s], none) :: seen) with
+                | mk p rest2 =>
+                  obtain ⟨b, seen2⟩ := rest2
+                  cases b with
+                  | ok =>
+                    simp [hj] at h
+                    have hstart : Canon fs (if t.isAbsolute = true then [] else acc) := by
+                      by_cases ha : t.isAbsolute = true <;> simp [ha, hc, canon_nil]
+                    obtain ⟨hp, hs2⟩ := ih _ _ _ _ _ hstart hs1 hj
+                    have hs3 : SeenCanon fs ((acc ++ [s], some p) :: seen2) := by
+                      intro k v hm
+                      simp at hm
+                      rcases hm with ⟨_, rfl⟩ | hm
+                      · exact hp
+                      · exact hs2 k v hm
+                    exact ih _ _ _ _ _ hp hs3 h
+                  | loop => simp [hj] at h
+                  | fuel => simp [hj] at h
+                  | nul => simp [hj] at h
+              | some o =>
+                cases o with
+                | none => simp [hk] at h
+                | some cached =>
+                  simp [hk] at h
+                  exact ih _ _ _ _ _ (hs _ _ (seenLookup_mem hk)) hs h
 
 theorem normSegs_canon_aux (fs : FS) : ∀ (q acc : Segs), (∀ s ∈ q, plain s) →
     q.foldl (fun acc s => if isDot s then acc else if isDotDot s then acc.dropLast else acc ++ [s]) acc = acc ++ q := by
@@ -831,31 +900,396 @@ theorem normSegs_canon_aux (fs : FS) : ∀ (q acc : Segs), (∀ s ∈ q, plain s
     rw [ih _ (fun x hx => h x (by simp [hx]))]
     simp
 
-/-- **CPython 3.12's `resolve()` returns a canonical path whenever it does not meet a symlink loop** -/
-theorem py312_lawful_partial (fs : FS) (c : PPath) (q : Segs) (seen : Seen)
-    (h : joinReal fs fs.fuel [] (if c.isAbsolute then c.segs else fs.cwd ++ c.segs) [] = (q, true, seen)) :
-    fs.py312Resolve c = some q ∧ Canon fs q := by
-  have hq := (joinReal_ok_canon fs _ _ _ _ _ _ (canon_nil fs) (by intro k v hm; simp at hm) h).1
-  refine ⟨?_, hq⟩
-  have hn : normSegs q = q := by
-    have := normSegs_canon_aux fs q [] hq.1
-    simpa [normSegs] using this
-  simp [FS.py312Resolve, h, hn]
+/-- the plain walk from `(a, t ++ more)` runs out of fuel or arrives at `(b, more)` with no more fuel than before -/
+def Sim (fs : FS) (a t b : Segs) : Prop :=
+  ∀ m more, walk fs m a (t ++ more) = none ∨ ∃ m', m' ≤ m ∧ walk fs m a (t ++ more) = walk fs m' b more
 
+/-- … or arrives at the link `aL ++ [sL]` with no more fuel than before -/
+def Reach (fs : FS) (a t aL : Segs) (sL : Str) : Prop :=
+  ∀ m more, walk fs m a (t ++ more) = none ∨
+    ∃ m' more', m' ≤ m ∧ walk fs m a (t ++ more) = walk fs m' aL (sL :: more')
 
-/-
-  PARTIAL (stated in full, proved in part):
+/-- the plain walk from `(a, t ++ more)` never ends -/
+def Div (fs : FS) (a t : Segs) : Prop := ∀ m more, walk fs m a (t ++ more) = none
 
-    theorem py312_lawful (fs : FS) : FixpointCanonical fs fs.py312Resolve
+/-- every finished cache entry is a shortcut the plain walk also takes -/
+def SeenSound (fs : FS) (seen : Seen) : Prop :=
+  ∀ a s v, (a ++ [s], some v) ∈ seen → Sim fs a [s] v
 
-  Proved above: `py312_lawful_partial` — whenever CPython's `_joinrealpath` does not give up at a symlink loop
-  its result is canonical (so on loop-free inputs the real algorithm satisfies the law).  NOT proved: the
-  give-up branch, i.e. "a path that `resolve()` maps to itself through the give-up branch, and whose `stat()`
-  does not run into a loop, has no symlink component" (it needs a simulation between the cached recursive
-  algorithm and the plain walk).  What is proved without it: the law for the specified resolver
-  (`spec_resolver_lawful`), every loader theorem for an arbitrary resolver, and — lexically, without the law —
-  containment, ordering and reporting for `py312Resolve` too.  The law for the real `Path.resolve()` is sampled
-  by the harness on every run (every accepted path is compared with the operating system's real path).
--/
+theorem sim_nil (fs : FS) (a : Segs) : Sim fs a [] a := by
+  intro m more; right; exact ⟨m, Nat.le_refl _, by simp⟩
+
+/-- one step of the plain walk in front of a simulation -/
+theorem sim_step {fs : FS} {a a' : Segs} {s : Str} {rest b : Segs}
+    (hstep : ∀ k more, walk fs (k + 1) a (s :: (rest ++ more)) = walk fs k a' (rest ++ more))
+    (h : Sim fs a' rest b) : Sim fs a (s :: rest) b := by
+  intro m more
+  cases m with
+  | zero => left; simp [walk]
+  | succ k =>
+    have := h k more
+    simp only [List.cons_append]
+    rw [hstep k more]
+    rcases this with h0 | ⟨m', hm, h1⟩
+    · left; exact h0
+    · right; exact ⟨m', by omega, h1⟩
+
+theorem reach_step {fs : FS} {a a' : Segs} {s : Str} {rest aL : Segs} {sL : Str}
+    (hstep : ∀ k more, walk fs (k + 1) a (s :: (rest ++ more)) = walk fs k a' (rest ++ more))
+    (h : Reach fs a' rest aL sL) : Reach fs a (s :: rest) aL sL := by
+  intro m more
+  cases m with
+  | zero => left; simp [walk]
+  | succ k =>
+    have := h k more
+    simp only [List.cons_append]
+    rw [hstep k more]
+    rcases this with h0 | ⟨m', more', hm, h1⟩
+    · left; exact h0
+    · right; exact ⟨m', more', by omega, h1⟩
+
+theorem div_step {fs : FS} {a a' : Segs} {s : Str} {rest : Segs}
+    (hstep : ∀ k more, walk fs (k + 1) a (s :: (rest ++ more)) = walk fs k a' (rest ++ more))
+    (h : Div fs a' rest) : Div fs a (s :: rest) := by
+  intro m more
+  cases m with
+  | zero => simp [walk]
+  | succ k => simp only [List.cons_append]; rw [hstep k more]; exact h k more
+
+/-- a simulation of the first part in front of a simulation / reach / divergence of the rest -/
+theorem sim_trans {fs : FS} {a b c : Segs} {t1 t2 : Segs} (h1 : Sim fs a t1 b) (h2 : Sim fs b t2 c) :
+    Sim fs a (t1 ++ t2) c := by
+  intro m more
+  rcases h1 m (t2 ++ more) with h0 | ⟨m', hm, he⟩
+  · left; simpa using h0
+  · rcases h2 m' more with h0 | ⟨m'', hm', he'⟩
+    · left; simp only [List.append_assoc]; rw [he]; exact h0
+    · right; exact ⟨m'', by omega, by simp only [List.append_assoc]; rw [he, he']⟩
+
+theorem sim_reach {fs : FS} {a b : Segs} {t1 t2 aL : Segs} {sL : Str} (h1 : Sim fs a t1 b)
+    (h2 : Reach fs b t2 aL sL) : Reach fs a (t1 ++ t2) aL sL := by
+  intro m more
+  rcases h1 m (t2 ++ more) with h0 | ⟨m', hm, he⟩
+  · left; simpa using h0
+  · rcases h2 m' more with h0 | ⟨m'', more', hm', he'⟩
+    · left; simp only [List.append_assoc]; rw [he]; exact h0
+    · right; exact ⟨m'', more', by omega, by simp only [List.append_assoc]; rw [he, he']⟩
+
+theorem sim_div {fs : FS} {a b : Segs} {t1 t2 : Segs} (h1 : Sim fs a t1 b) (h2 : Div fs b t2) :
+    Div fs a (t1 ++ t2) := by
+  intro m more
+  rcases h1 m (t2 ++ more) with h0 | ⟨m', hm, he⟩
+  · simpa using h0
+  · simp only [List.append_assoc]; rw [he]; exact h2 m' more
+
+/-- the step of the plain walk at a symlink -/
+theorem walk_link (fs : FS) (a : Segs) (s : Str) (t : PPath) (h1 : isDot s = false) (h2 : isDotDot s = false)
+    (hl : readlink fs (a ++ [s]) = some t) (k : Nat) (todo : Segs) :
+    walk fs (k + 1) a (s :: todo) = walk fs k (if t.isAbsolute = true then [] else a) (t.segs ++ todo) := by
+  simp [walk, h1, h2, hl]
+
+/-- a link whose target leads the plain walk back to the link itself never resolves -/
+theorem link_diverges (fs : FS) (a : Segs) (s : Str) (t : PPath) (h1 : isDot s = false) (h2 : isDotDot s = false)
+    (hl : readlink fs (a ++ [s]) = some t)
+    (hr : Reach fs (if t.isAbsolute = true then [] else a) t.segs a s) :
+    ∀ m more, walk fs m a (s :: more) = none := by
+  intro m
+  induction m using Nat.strongRecOn with
+  | ind m ih =>
+    intro more
+    cases m with
+    | zero => simp [walk]
+    | succ k =>
+      rw [walk_link fs a s t h1 h2 hl]
+      rcases hr k more with h0 | ⟨m', more', hm, he⟩
+      · exact h0
+      · rw [he]; exact ih m' (by omega) more'
+
+/-- when `_joinrealpath` does not give up, the plain walk follows it; the cache stays sound; no link is left
+    "in progress" that was not already so before -/
+theorem joinReal_ok_sim (fs : FS) : ∀ (n : Nat) (acc todo : Segs) (seen : Seen) (q : Segs) (seen' : Seen),
+    SeenSound fs seen → joinReal fs n acc todo seen = (q, .ok, seen') →
+    Sim fs acc todo q ∧ SeenSound fs seen' ∧
+      (∀ k, seenLookup seen' k = some none → seenLookup seen k = some none) := by
+  intro n
+  induction n with
+  | zero =>
+    intro acc todo seen q seen' hs h
+    cases todo with
+    | nil => simp [joinReal] at h; obtain ⟨rfl, rfl⟩ := h; exact ⟨sim_nil fs _, hs, fun _ h => h⟩
+    | cons s rest => simp [joinReal] at h
+  | succ n ih =>
+    intro acc todo seen q seen' hs h
+    cases todo with
+    | nil => simp [joinReal] at h; obtain ⟨rfl, rfl⟩ := h; exact ⟨sim_nil fs _, hs, fun _ h => h⟩
+    | cons s rest =>
+      simp only [joinReal] at h
+      by_cases h1 : isDot s = true
+      · simp [h1] at h
+        obtain ⟨a, b, c⟩ := ih _ _ _ _ _ hs h
+        exact ⟨sim_step (by intro k more; simp [walk, h1]) a, b, c⟩
+      · by_cases h2 : isDotDot s = true
+        · simp [h1, h2] at h
+          obtain ⟨a, b, c⟩ := ih _ _ _ _ _ hs h
+          exact ⟨sim_step (by intro k more; simp [walk, h1, h2]) a, b, c⟩
+        · by_cases h3 : hasNul s = true
+          · simp [h1, h2, h3] at h
+          · simp only [h1, h2, h3] at h
+            have h1' : isDot s = false := by simpa using h1
+            have h2' : isDotDot s = false := by simpa using h2
+            cases hl : readlink fs (acc ++ [s]) with
+            | none =>
+              simp [hl] at h
+              obtain ⟨a, b, c⟩ := ih _ _ _ _ _ hs h
+              exact ⟨sim_step (by intro k more; simp [walk, h1, h2, hl]) a, b, c⟩
+            | some t =>
+              simp [hl] at h
+              cases hk : seenLookup seen (acc ++ [s]) with
+              | none =>
+                simp [hk] at h
+                have hs1 : SeenSound fs ((acc ++ [s], none) :: seen) := by
+                  intro a' s' v hm
+                  simp at hm
+                  exact hs a' s' v hm
+                cases hj : joinReal fs n (if t.isAbsolute = true then [] else acc) t.segs
+                    ((acc ++ [s], none) :: seen) with
+                | mk p rest2 =>
+                  obtain ⟨b, seen2⟩ := rest2
+                  cases b with
+                  | ok =>
+                    simp [hj] at h
+                    obtain ⟨hsim1, hs2, hp2⟩ := ih _ _ _ _ _ hs1 hj
+                    -- the finished entry for this link is a sound shortcut
+                    have hentry : Sim fs acc [s] p := by
+                      intro m more
+                      cases m with
+                      | zero => left; simp [walk]
+                      | succ k =>
+                        have := hsim1 k more
+                        simp only [List.cons_append, List.nil_append]
+                        rw [walk_link fs acc s t h1' h2' hl]
+                        rcases this with h0 | ⟨m', hm, he⟩
+                        · left; exact h0
+                        · right; exact ⟨m', by omega, he⟩
+                    have hs3 : SeenSound fs ((acc ++ [s], some p) :: seen2) := by
+                      intro a' s' v hm
+                      simp at hm
+                      rcases hm with ⟨hkey, rfl⟩ | hm
+                      · obtain ⟨rfl, rfl⟩ := hkey
+                        exact hentry
+                      · exact hs2 a' s' v hm
+                    obtain ⟨hsim2, hs4, hp4⟩ := ih _ _ _ _ _ hs3 h
+                    refine ⟨?_, hs4, ?_⟩
+                    · have := sim_trans hentry hsim2
+                      simpa using this
+                    · intro k hk'
+                      have h3' := hp4 k hk'
+                      rw [seenLookup_cons] at h3'
+                      by_cases hkk : acc ++ [s] = k
+                      · simp [hkk] at h3'
+                      · simp [hkk] at h3'
+                        have h2'' := hp2 k h3'
+                        rw [seenLookup_cons] at h2''
+                        simpa [hkk] using h2''
+                  | loop => simp [hj] at h
+                  | fuel => simp [hj] at h
+                  | nul => simp [hj] at h
+              | some o =>
+                cases o with
+                | none => simp [hk] at h
+                | some cached =>
+                  simp [hk] at h
+                  obtain ⟨a, b, c⟩ := ih _ _ _ _ _ hs h
+                  have hcache : Sim fs acc [s] cached := hs acc s cached (seenLookup_mem hk)
+                  exact ⟨by simpa using sim_trans hcache a, b, c⟩
+
+/-- when `_joinrealpath` gives up at a symlink loop, the plain walk over the same input never ends, or it arrives
+    (with no more fuel) at a link that was already being resolved when this call started -/
+theorem joinReal_loop_div (fs : FS) : ∀ (n : Nat) (acc todo : Segs) (seen : Seen) (q : Segs) (seen' : Seen),
+    SeenSound fs seen → joinReal fs n acc todo seen = (q, .loop, seen') →
+    Div fs acc todo ∨ ∃ aL sL, seenLookup seen (aL ++ [sL]) = some none ∧ Reach fs acc todo aL sL := by
+  intro n
+  induction n with
+  | zero =>
+    intro acc todo seen q seen' hs h
+    cases todo <;> simp [joinReal] at h
+  | succ n ih =>
+    intro acc todo seen q seen' hs h
+    cases todo with
+    | nil => simp [joinReal] at h
+    | cons s rest =>
+      simp only [joinReal] at h
+      by_cases h1 : isDot s = true
+      · simp [h1] at h
+        have hstep : ∀ k more, walk fs (k + 1) acc (s :: (rest ++ more)) = walk fs k acc (rest ++ more) := by
+          intro k more; simp [walk, h1]
+        rcases ih _ _ _ _ _ hs h with hd | ⟨aL, sL, hin, hre⟩
+        · left; exact div_step hstep hd
+        · right; exact ⟨aL, sL, hin, reach_step hstep hre⟩
+      · by_cases h2 : isDotDot s = true
+        · simp [h1, h2] at h
+          have hstep : ∀ k more, walk fs (k + 1) acc (s :: (rest ++ more)) = walk fs k acc.dropLast (rest ++ more) := by
+            intro k more; simp [walk, h1, h2]
+          rcases ih _ _ _ _ _ hs h with hd | ⟨aL, sL, hin, hre⟩
+          · left; exact div_step hstep hd
+          · right; exact ⟨aL, sL, hin, reach_step hstep hre⟩
+        · by_cases h3 : hasNul s = true
+          · simp [h1, h2, h3] at h
+          · simp only [h1, h2, h3] at h
+            have h1' : isDot s = false := by simpa using h1
+            have h2' : isDotDot s = false := by simpa using h2
+            cases hl : readlink fs (acc ++ [s]) with
+            | none =>
+              simp [hl] at h
+              have hstep : ∀ k more, walk fs (k + 1) acc (s :: (rest ++ more)) = walk fs k (acc ++ [s]) (rest ++ more) := by
+                intro k more; simp [walk, h1, h2, hl]
+              rcases ih _ _ _ _ _ hs h with hd | ⟨aL, sL, hin, hre⟩
+              · left; exact div_step hstep hd
+              · right; exact ⟨aL, sL, hin, reach_step hstep hre⟩
+            | some t =>
+              simp [hl] at h
+              cases hk : seenLookup seen (acc ++ [s]) with
+              | none =>
+                simp [hk] at h
+                have hs1 : SeenSound fs ((acc ++ [s], none) :: seen) := by
+                  intro a' s' v hm
+                  simp at hm
+                  exact hs a' s' v hm
+                cases hj : joinReal fs n (if t.isAbsolute = true then [] else acc) t.segs
+                    ((acc ++ [s], none) :: seen) with
+                | mk p rest2 =>
+                  obtain ⟨b, seen2⟩ := rest2
+                  cases b with
+                  | ok =>
+                    simp [hj] at h
+                    obtain ⟨hsim1, hs2, hp2⟩ := joinReal_ok_sim fs _ _ _ _ _ _ hs1 hj
+                    have hentry : Sim fs acc [s] p := by
+                      intro m more
+                      cases m with
+                      | zero => left; simp [walk]
+                      | succ k =>
+                        have := hsim1 k more
+                        simp only [List.cons_append, List.nil_append]
+                        rw [walk_link fs acc s t h1' h2' hl]
+                        rcases this with h0 | ⟨m', hm, he⟩
+                        · left; exact h0
+                        · right; exact ⟨m', by omega, he⟩
+                    have hs3 : SeenSound fs ((acc ++ [s], some p) :: seen2) := by
+                      intro a' s' v hm
+                      simp at hm
+                      rcases hm with ⟨hkey, rfl⟩ | hm
+                      · obtain ⟨rfl, rfl⟩ := hkey
+                        exact hentry
+                      · exact hs2 a' s' v hm
+                    rcases ih _ _ _ _ _ hs3 h with hd | ⟨aL, sL, hin, hre⟩
+                    · left; simpa using sim_div hentry hd
+                    · right
+                      refine ⟨aL, sL, ?_, by simpa using sim_reach hentry hre⟩
+                      rw [seenLookup_cons] at hin
+                      by_cases hkk : acc ++ [s] = aL ++ [sL]
+                      · simp [hkk] at hin
+                      · simp [hkk] at hin
+                        have h2'' := hp2 _ hin
+                        rw [seenLookup_cons] at h2''
+                        simpa [hkk] using h2''
+                  | loop =>
+                    simp [hj] at h
+                    rcases ih _ _ _ _ _ hs1 hj with hd | ⟨aL, sL, hin, hre⟩
+                    · -- the target itself never resolves
+                      left
+                      intro m more
+                      cases m with
+                      | zero => simp [walk]
+                      | succ k =>
+                        simp only [List.cons_append]
+                        rw [walk_link fs acc s t h1' h2' hl]
+                        have := hd k (rest ++ more)
+                        simpa using this
+                    · rw [seenLookup_cons] at hin
+                      by_cases hkk : acc ++ [s] = aL ++ [sL]
+                      · -- the loop closes at this very link
+                        obtain ⟨rfl, hss⟩ := List.append_inj' hkk rfl
+                        simp at hss; subst hss
+                        left
+                        intro m more
+                        simp only [List.cons_append]
+                        exact link_diverges fs acc s t h1' h2' hl hre m (rest ++ more)
+                      · simp [hkk] at hin
+                        right
+                        refine ⟨aL, sL, hin, ?_⟩
+                        intro m more
+                        cases m with
+                        | zero => left; simp [walk]
+                        | succ k =>
+                          simp only [List.cons_append]
+                          rw [walk_link fs acc s t h1' h2' hl]
+                          rcases hre k (rest ++ more) with h0 | ⟨m', more', hm, he⟩
+                          · left; simpa using h0
+                          · right; exact ⟨m', more', by omega, by simpa using he⟩
+                  | fuel => simp [hj] at h
+                  | nul => simp [hj] at h
+              | some o =>
+                cases o with
+                | none =>
+                  simp [hk] at h
+                  right
+                  refine ⟨acc, s, hk, ?_⟩
+                  intro m more
+                  right
+                  exact ⟨m, rest ++ more, Nat.le_refl _, by simp⟩
+                | some cached =>
+                  simp [hk] at h
+                  have hcache : Sim fs acc [s] cached := hs acc s cached (seenLookup_mem hk)
+                  rcases ih _ _ _ _ _ hs h with hd | ⟨aL, sL, hin, hre⟩
+                  · left; simpa using sim_div hcache hd
+                  · right; exact ⟨aL, sL, hin, by simpa using sim_reach hcache hre⟩
+
+/-- **CPython 3.12's `resolve()` satisfies the resolver law**: a path it maps to itself is canonical.
+    (On the branch that meets no symlink loop the result is canonical outright; a fixpoint through the give-up
+    branch would be a path on which the final `stat()` succeeds although the resolution of that very path gave
+    up at a loop — `joinReal_loop_div` excludes it.) -/
+theorem py312_lawful (fs : FS) : FixpointCanonical fs fs.py312Resolve := by
+  intro p h
+  unfold FS.py312Resolve at h
+  simp only [PPath.isAbsolute] at h
+  have h11 : ((1 : Nat) != 0) = true := by decide
+  simp only [h11, if_true] at h
+  cases hj : joinReal fs fs.fuel [] p [] with
+  | mk q rest2 =>
+    obtain ⟨b, seen2⟩ := rest2
+    cases b with
+    | ok =>
+      simp [hj] at h
+      have hq := (joinReal_ok_canon fs _ _ _ _ _ _ (canon_nil fs) (by intro k v hm; simp at hm) hj).1
+      have hn : normSegs q = q := by
+        have := normSegs_canon_aux fs q [] hq.1
+        simpa [normSegs] using this
+      rw [hn] at h; subst h; exact hq
+    | loop =>
+      exfalso
+      simp only [hj] at h
+      have hdiv := joinReal_loop_div fs _ _ _ _ _ _ (by intro a s v hm; simp at hm) hj
+      rcases hdiv with hd | ⟨aL, sL, hin, _⟩
+      · by_cases hnul : (normSegs q).any hasNul = true
+        · simp [hnul] at h
+        · simp only [hnul] at h
+          cases hw : walk fs fs.fuel [] (normSegs q) with
+          | none => simp [hw] at h
+          | some z =>
+            simp [hw] at h
+            rw [h] at hw
+            have := hd fs.fuel []
+            simp [hw] at this
+      · simp [seenLookup] at hin
+    | fuel => simp [hj] at h
+    | nul => simp [hj] at h
+
+/-- with it, the on-disk reading of the loader theorems holds for the resolver the running interpreter uses -/
+theorem trace_inside_on_disk_py312 (fs : FS) (cfg : Cfg) (w : World) (hw : w.resolve = fs.py312Resolve)
+    (r : PPath) (hr : cfg.root = some r)
+    (n : Nat) (stack : List Item) (visited : List Segs) (e : Ev) (p : Segs)
+    (he : e ∈ (run cfg w n stack visited).1) (hacc : isAccess e p) :
+    Canon fs p ∧ Inside r.segs p ∧ CanonicalRoot fs r :=
+  trace_inside_on_disk fs cfg w (hw ▸ py312_lawful fs) r hr n stack visited e p he hacc
 
 end Pdt.C17
